@@ -194,7 +194,9 @@ def run_case(case, ctx):
                 exp[k] = exp[k] * f
             # without run-outs there is no endurance limit (SD = 0) and ND is the life at a fixed stand-in load: the statement
             # says nothing about ND under a change of the load unit, so it is left out of that one relation
-            keys = [k for k in KEYS if k != "ND"] if (norun and monitor.startswith("load_scaling")) else None
+            # (the same holds whenever an analysis ends with SD = 0, e.g. a Probit regression without slope)
+            no_limit = norun or float(base["SD"]) == 0.0
+            keys = [k for k in KEYS if k != "ND"] if (no_limit and monitor.startswith("load_scaling")) else None
             ok_, key = _same(other, exp, 1e-9 if exact_method else 1e-5, keys)
             detail = {"analyzer": name, "differs_in": key, "base": {k: float(base[k]) for k in KEYS}, "other": {k: float(other[k]) for k in KEYS}}
             tags = []
@@ -202,14 +204,14 @@ def run_case(case, ctx):
                 # the likelihood itself must be equivariant: the mapped estimate is as likely under the transformed data as the
                 # base estimate under the original data (a unit-dependent code path in the likelihood breaks this)
                 l_base, l_mapped = loglik(df, base), loglik(other_df, exp)
-                ctx.check("likelihood_equivariant", abs(l_base - l_mapped) <= 1e-9 * abs(l_base) + 1e-8, observed=l_mapped, expected=l_base,
+                ctx.check("likelihood_equivariant", l_base == l_mapped or abs(l_base - l_mapped) <= 1e-9 * abs(l_base) + 1e-8, observed=l_mapped, expected=l_base,
                           detail={"analyzer": name, "relation": monitor})
                 if not ok_:
                     # optimiser answers: as likely as the directly computed estimate under the transformed data?
                     l_direct = loglik(other_df, other)
                     detail["loglik"] = {"direct": l_direct, "mapped": l_mapped}
                     ok_ = abs(l_direct - l_mapped) <= 2e-3
-                    if not ok_ and abs(l_base - l_mapped) <= 1e-9 * abs(l_base) + 1e-8:
+                    if not ok_ and (l_base == l_mapped or abs(l_base - l_mapped) <= 1e-9 * abs(l_base) + 1e-8):
                         # equivariant likelihood, different maxima reached: Nelder-Mead (absolute xatol/fatol) stopped in
                         # different (local) optima for the two unit systems / row orders
                         tags = ["c18_neldermead_reaches_different_optimum"]
